@@ -309,6 +309,8 @@ def g_extra(rng):
 
 def g_namevalue(rng):
     lines = []
+    if rng.random() < 0.1:
+        return b""         # present but empty: a bare terminator is a legal name-value section
     for _ in range(rng.choice([1, 1, 2, 3])):
         name = "".join(rng.choice("abcXYZ_09") for _ in range(rng.randrange(1, 8)))
         ty = rng.choice(['STRING', 'F32', 'S32', 'VEC3', 'U32', 'ASSET', 'U64', 'NULL', 'CAMERA'])
@@ -316,7 +318,7 @@ def g_namevalue(rng):
         st = rng.choice(['S', 'DS', 'SV', 'DSV', 'NULL'])
         val = "".join(rng.choice("abc 123.<>,-é") for _ in range(rng.randrange(0, 10)))
         lines.append(" ".join([name, ty, rw, st, val]))
-    return "\n".join(lines).encode("utf8")      # domain rule: never empty when the section is present
+    return "\n".join(lines).encode("utf8")
 
 
 def g_faces(rng):
@@ -574,9 +576,19 @@ def _viol(chk: Check, what, features, detail):
         chk.violation(what, features, detail)
 
 
-def _features(clause, payload, mut, known):
-    """pcode_known is read off the payload actually decoded (a mutation may have hit the PCode byte)."""
-    return {"kind": "decode", "clause": clause, "pcode_known": len(payload) > 20 and payload[20] in known, "mutation": mut}
+def _features(clause, payload, mut, known, empty=()):
+    """pcode_known is read off the payload actually decoded (a mutation may have hit the PCode byte);
+    empty_sections names the variable-length sections that are present but empty in the payload as built."""
+    return {"kind": "decode", "clause": clause, "pcode_known": len(payload) > 20 and payload[20] in known, "mutation": mut,
+            "empty_sections": sorted(empty)}
+
+
+def _empty_of(parts):
+    return [n for n, fr, c, _ in parts if c is not None and fr != "fixed" and (c == b"" or (fr == "xp" and c == b"\x00"))]
+
+
+def _tag(empty):
+    return " [present but empty: %s]" % ",".join(sorted(empty)) if empty else ""
 
 
 def _replay_rows(chk: Check, rows, label):
@@ -624,8 +636,10 @@ def _replay_rows(chk: Check, rows, label):
             bad.append(("fast-result-reencodes-payload", ev["rf"].get("exc", "bytes differ")))
         if ev["ne"]:
             bad.append(("values-equal", ev["ne"]))
+        emp = [f["name"] for f in r["f"] if f["pres"] and f["start"] >= 84 and
+               (f["len"] == 0 or (f["name"] == "ExtraParams" and f["len"] == 1))]
         for clause, detail in bad[:4]:
-            _viol(chk, "B3 %s: %s" % (label, clause), _features(clause, r["p"], "none", I.known_pcodes),
+            _viol(chk, "B3 %s: %s%s" % (label, clause, _tag(emp)), _features(clause, r["p"], "none", I.known_pcodes, emp),
                           {"flags": r["flags"], "hi": r["hi"], "pcode": r["pcode"], "variant": r["v0"],
                            "payload_hex": p.hex(), "detail": detail, "all_failed_clauses": [b[0] for b in bad][:12]})
         chk.nontrivial(("row", r["flags"], r["pcode"], r["v0"], r["hi"], len(p)))
@@ -660,7 +674,7 @@ def _traces(chk: Check, per_flag: int, n_mut: int, n_empty: int, n_boundary: int
             hi_bits = rng.choice([0, 0, 0, 1 << 11, 1 << 31, 0xfffff800, rng.getrandbits(21) << 11])
             p, parts = gen_payload(rng, flags, pcode, hi_bits)
             events.append(observe(I, names, p, True))
-            meta.append({"flags": flags, "pcode": pcode, "mutation": "none"})
+            meta.append({"flags": flags, "pcode": pcode, "mutation": "none", "empty": _empty_of(parts)})
             if pcode in known:
                 pool.append((p, parts, flags, pcode))
     # boundary lengths of the terminated / counted sections: each alone, together, and amid all other sections
@@ -673,12 +687,12 @@ def _traces(chk: Check, per_flag: int, n_mut: int, n_empty: int, n_boundary: int
                 pcode = rng.choice(known)
                 p, parts = gen_payload(rng, flags, pcode, 0, **kw)
                 events.append(observe(I, names, p, True))
-                meta.append({"flags": flags, "pcode": pcode, "mutation": "none", "boundary": kw})
+                meta.append({"flags": flags, "pcode": pcode, "mutation": "none", "boundary": kw, "empty": _empty_of(parts)})
         for flags in (0, 1 << FLAG["NAME_VALUES"], 1 << FLAG["PARTICLES_NEW"], 2047):
             pcode = rng.choice(known)
             p, parts = gen_payload(rng, flags, pcode, 0, big=True)
             events.append(observe(I, names, p, True))
-            meta.append({"flags": flags, "pcode": pcode, "mutation": "none", "boundary": "max-size sections"})
+            meta.append({"flags": flags, "pcode": pcode, "mutation": "none", "boundary": "max-size sections", "empty": _empty_of(parts)})
     stats = {}
     for i in range(n_mut):
         p, parts, flags, pcode = pool[rng.randrange(len(pool))]
@@ -700,7 +714,10 @@ def _traces(chk: Check, per_flag: int, n_mut: int, n_empty: int, n_boundary: int
     for base, which in combos:
         pcode = rng.choice(known)
         q, flags = gen_empty_sections(rng, base, pcode, which)
-        ev = observe(I, names, q, False)
+        # "present but empty" is a legal encoding of every one of these sections except the texture animation block
+        # (a fixed 16-byte record): those payloads are well-formed and judged strictly; with an empty TextureAnim
+        # the verdict still follows the template's observed acceptance
+        ev = observe(I, names, q, "TextureAnim" not in which)
         events.append(ev)
         meta.append({"flags": flags, "pcode": pcode, "mutation": "empty-section", "empty": which})
         indom = ev["tmpl"]["res"] == "ok" and ev["rt"]["res"] == "ok" and ev["rt"]["b"] == ev["p"]
@@ -723,11 +740,11 @@ def _traces(chk: Check, per_flag: int, n_mut: int, n_empty: int, n_boundary: int
     chk.count(len(traces))
     for ti, j, ev in rej:
         m = meta[ti]
-        _viol(chk, "B2 payload rejected by CompressedObj_Trace", _features("rejected", events[ti]["p"], m["mutation"], known),
+        _viol(chk, "B2 payload rejected by CompressedObj_Trace", _features("rejected", events[ti]["p"], m["mutation"], known, m.get("empty", ())),
                       {"meta": m, "payload_hex": bytes(events[ti]["p"]).hex()})
     for tid, fl in sorted(fails.items()):
         m, e = meta[tid], events[tid]
-        _viol(chk, "B2: %s" % fl[0], _features(fl[0], e["p"], m["mutation"], known),
+        _viol(chk, "B2: %s%s" % (fl[0], _tag(m.get("empty", ()))), _features(fl[0], e["p"], m["mutation"], known, m.get("empty", ())),
                       {"meta": m, "failed_clauses": fl[:12], "payload_hex": bytes(e["p"]).hex(),
                        "fast": {"res": e["fast"]["res"], "exc": e["fast"].get("exc")},
                        "tmpl": {"res": e["tmpl"]["res"], "exc": e["tmpl"].get("exc")}, "ne": e["ne"]})
@@ -1032,9 +1049,10 @@ def run(chk: Check):
                        "contents) and byte-level mutations re-parsed by TLC. non-trivial = distinct (flag word, kind, variant/length) "
                        "payloads plus mutated payloads that stay in the template's domain.")
     chk.assumptions += [
-        "generated payloads are well-formed = accepted by the reference parser with nothing left over, and canonical for TODAY's template: a "
-        "present NameValue section is not empty and no extra-param type occurs twice (generator rules, guarded by an Assert in the trace spec)",
-        "mutated payloads and payloads with announced-but-empty sections (zero-length block, zero count, bare terminator) are in the domain iff "
+        "generated payloads are well-formed = accepted by the reference parser with nothing left over, and no extra-param type occurs "
+        "twice (generator rule, guarded by an Assert in the trace spec); present-but-empty variable-length sections (bare terminator for "
+        "Text/MediaURL/NameValue, zero extra-param count, zero-length ScratchPad/TextureEntry, nothing left for PSBlockNew) are well-formed",
+        "mutated payloads and payloads with a zero-length TextureAnim block are in the domain iff "
         "the declarative template is observed to decode them and to re-encode them to the same bytes; whether an empty composite section "
         "decodes to 'no value' is bound to the template's observed choice and the fast reader must make the same one",
         "generator domain rules: floats are NaN/inf-free; texture-entry rotation raw -32768 excluded (C10/D5); strings are valid UTF-8",
